@@ -603,6 +603,14 @@ pub fn run() -> i32 {
                 eprintln!("SELFTEST-FAIL: c20_builtin_override: case {}", case);
             }
         }
+        for case in 0..=3u8 {
+            crate::sym::load(vec![vec![case]]);
+            n += 1;
+            if std::panic::catch_unwind(|| crate::node::c10_map_filter_order()).is_err() {
+                c11_bad += 1;
+                eprintln!("SELFTEST-FAIL: c10_map_filter_order: case {}", case);
+            }
+        }
         for code in 0..=5u8 {
             crate::sym::load(vec![vec![code]]);
             n += 1;
